@@ -657,7 +657,12 @@ def reduce_dim(f, reducedef, fuzzydim=True, metakeys=_metakeys):
         # vreshape = addunitydim(var)
         if varkey not in metakeys:
             if numweightkey is None:
-                vout = _getfunc(vreshape, func)(axis=axis, keepdims=True)
+                # every axis that has the dimension (COV(x, x)) is reduced,
+                # last first, as applyAlongDimensions does
+                vout = vreshape
+                for raxis in [ai for ai, dk in enumerate(var.dimensions)
+                              if dk == dimkey][::-1]:
+                    vout = _getfunc(vout, func)(axis=raxis, keepdims=True)
             elif denweightkey is None:
                 wvar = var * \
                     np.array(numweight, ndmin=var.ndim)[
